@@ -386,6 +386,37 @@ def check_mappings(ctx, rng, reqs, metas, n_cases):
                             r = big.slice(a, b).map_result(pos, assoc)
                             reqs.append({"op": "mappingMap", "mapping": {"maps": mj, "mirror": mir, "from": a, "to": b}, "pos": pos, "assoc": assoc})
                             metas.append(("mappingMap", mj, [a, b], [got, r.pos, r.del_info]))
+            # appending a mapping that carries mirror pairs (plain and inverted) to a non-empty receiver: the mirror
+            # pairs move with their maps — the result maps like "receiver, then the (inverted) mapping"
+            for inverted_append in (False, True):
+                def appended_big():
+                    m1 = mk()
+                    (m1.append_mapping_inverted if inverted_append else m1.append_mapping)(big)
+                    return m1
+                sta, m1 = outcome(appended_big)
+                if sta != "ok":
+                    ctx.violation("append-with-mirrors", f"appending a mapping with mirrors raised {m1}", {"maps": maps, "inverted": invs, "appended": mj, "mirror": mir})
+                    continue
+                sti, second = outcome(lambda: big.invert() if inverted_append else big)
+                if sti != "ok":
+                    continue
+                for assoc in (-1, 1):
+                    for pos in range(span(maps[0], invs[0]) + 1):
+                        ste, exp = outcome(lambda: second.map(mk().map(pos, assoc), assoc))
+                        stg, got = outcome(lambda: m1.map(pos, assoc))
+                        ctx.count("append_with_mirror_calls")
+                        if ste != "ok":
+                            continue
+                        if stg != "ok" or got != exp:
+                            got = got if stg == "ok" else str(got)
+                            ctx.violation("append-with-mirrors", "a receiver with an appended mirrored mapping does not map like the receiver followed by that mapping",
+                                          {"maps": maps, "inverted": invs, "appended": mj, "mirror": mir, "inverted_append": inverted_append,
+                                           "pos": pos, "assoc": assoc, "got": got, "expected": exp, "result_mirror": list(m1.mirror or [])})
+                            break
+                reqs.append({"op": "mappingOps", "ops": [{"k": "appendMap", "m": [list(r), inv]} for r, inv in zip(maps, invs)] +
+                             [{"k": "appendMappingInverted" if inverted_append else "appendMapping", "mapping": {"maps": mj, "mirror": mir}}]})
+                metas.append(("mappingOps", maps, invs, {"maps": [[list(x.ranges), x.inverted] for x in m1.maps], "mirror": list(m1.mirror or []),
+                                                         "from": m1.from_, "to": m1.to}))
         # model: builder ops
         ops = [{"k": "appendMap", "m": [list(r), inv]} for r, inv in zip(maps, invs)]
         ops.append({"k": "appendMapping", "mapping": {"maps": [[list(r), False] for r in other_maps]}})
